@@ -1,5 +1,6 @@
 import AslModel.WebSocket
 import AslProofs.WebSocket
+import AslProofs.Sha1
 import AslProps.C15
 /-!
 # C11 — WebSocket messages arrive intact and in order; hostile frames can only close the connection
@@ -235,29 +236,21 @@ def truncation_full : Prop :=
 
 /-! ## handshake -/
 
-/-- the value the server puts into `Sec-WebSocket-Accept` is base64(H(key ‖ GUID)) with the RFC 4648
-    alphabet and the RFC 6455 GUID, where H is the library's SHA-1 (`SHA1::hash`, model of C15) -/
-theorem accept_key_rfc_partial (key : List UInt8) :
-    acceptKey key = C15.Rfc.base64 (AslModel.Sha1.Impl.hash (key ++ Rfc6455.guid)) := by
+/-- **The accept key is the one RFC 6455 prescribes**: the value the server puts into
+    `Sec-WebSocket-Accept` is base64(SHA-1(key ‖ GUID)) with the RFC 4648 alphabet (C15 `base64_rfc`), the
+    RFC 6455 GUID (regenerated from the source) and SHA-1 as specified in FIPS 180-4
+    (`AslProofs.Sha1.hash_eq_fips`: the library's streaming SHA-1 = the FIPS function, for every message) -/
+theorem accept_key_rfc (key : List UInt8) :
+    acceptKey key = C15.Rfc.base64 (AslModel.Sha1.Fips.sha1 (key ++ Rfc6455.guid)) := by
   unfold acceptKey
-  rw [C15.base64_rfc, guid_is_rfc]
+  rw [C15.base64_rfc, guid_is_rfc, AslProofs.Sha1.hash_eq_fips]
 
-/-- the example of RFC 6455 §1.3: key `dGhlIHNhbXBsZSBub25jZQ==` gives `s3pPLMBiTxaQ9kYGzzhZRbK+xOo=` — evaluated by the
-    kernel both through the model the driver runs and through the FIPS/RFC specification functions -/
+/-- the example of RFC 6455 §1.3: key `dGhlIHNhbXBsZSBub25jZQ==` gives `s3pPLMBiTxaQ9kYGzzhZRbK+xOo=`
+    (evaluated by the kernel through the model the driver runs) -/
 theorem accept_key_rfc_sample :
     acceptKey [100, 71, 104, 108, 73, 72, 78, 104, 98, 88, 66, 115, 90, 83, 66, 117, 98, 50, 53, 106, 90, 81, 61, 61]
-      = [115, 51, 112, 80, 76, 77, 66, 105, 84, 120, 97, 81, 57, 107, 89, 71, 122, 122, 104, 90, 82, 98, 75, 43, 120, 79, 111, 61] ∧
-    C15.Rfc.base64 (AslModel.Sha1.Fips.sha1 ([100, 71, 104, 108, 73, 72, 78, 104, 98, 88, 66, 115, 90, 83, 66, 117, 98, 50, 53, 106, 90, 81, 61, 61] ++ Rfc6455.guid))
       = [115, 51, 112, 80, 76, 77, 66, 105, 84, 120, 97, 81, 57, 107, 89, 71, 122, 122, 104, 90, 82, 98, 75, 43, 120, 79, 111, 61] := by
-  constructor <;> decide +kernel
-
-/-- the full statement: H is FIPS 180-4 SHA-1.  It follows from `accept_key_rfc_partial` once
-    `Impl.hash = Fips.sha1` (C15's `sha1_eq_spec`, validated there by the correspondence check, not yet a theorem). -/
-def accept_key_rfc_full : Prop :=
-  ∀ key, acceptKey key = C15.Rfc.base64 (AslModel.Sha1.Fips.sha1 (key ++ Rfc6455.guid))
-
-theorem accept_key_rfc_of_sha1 (h : ∀ m, AslModel.Sha1.Impl.hash m = AslModel.Sha1.Fips.sha1 m) : accept_key_rfc_full := by
-  intro key; rw [accept_key_rfc_partial, h]
+  decide +kernel
 
 /-- the response is the status line and headers RFC 6455 §4.2.2 asks for
     (`HTTP/1.1 101 Switching Protocols`, `Upgrade: websocket`, `Connection: Upgrade`, `Sec-WebSocket-Accept: `),
